@@ -93,6 +93,9 @@ type Site struct {
 	Host   string `json:"host"`
 	Port   string `json:"port"` // "", "80", "443", "8080"
 	TLS    string `json:"tls"`  // "", off, email, self_signed, manual, no_redirect, email_off
+	Path   string `json:"path,omitempty"` // the site is declared for a path prefix only (host/path)
+	// Extra: a second tls directive follows in the block, carrying options only (protocols)
+	Extra bool `json:"extra,omitempty"`
 }
 
 type Probe struct {
@@ -115,7 +118,7 @@ func (s Site) addr() string {
 	if s.Port != "" {
 		a += ":" + s.Port
 	}
-	return a
+	return a + s.Path
 }
 
 func casketfile(c *Case) string {
@@ -135,6 +138,9 @@ func casketfile(c *Case) string {
 			sb.WriteString("\ttls {\n\t\tno_redirect\n\t}\n")
 		case "wildcard":
 			sb.WriteString("\ttls {\n\t\twildcard\n\t}\n")
+		}
+		if s.Extra {
+			sb.WriteString("\ttls {\n\t\tprotocols tls1.2 tls1.3\n\t}\n")
 		}
 		fmt.Fprintf(&sb, "\theader / X-Site s%d\n\tstatus 204 /\n}\n", i)
 	}
@@ -411,7 +417,7 @@ func runCase(c *Case) (nontrivial bool, err error) {
 					return nontrivial, fmt.Errorf("%s: declared plain HTTP / not qualifying, but port %s completes a TLS handshake (certificate %q)", desc, e.port, cn)
 				}
 			}
-			resp, perr := plainGet(e.port, sni, "/")
+			resp, perr := plainGet(e.port, sni, s.Path+"/")
 			if perr != nil || resp.StatusCode != 204 || resp.Header.Get("X-Site") != fmt.Sprintf("s%d", i) {
 				// an ambiguous vhost (same host twice on one port) is rejected at start, so this must be our site
 				st, xs := 0, ""
@@ -588,6 +594,12 @@ func genCase(t *rapid.T) *Case {
 		}
 		if s.Host == "" && s.Port == "" && s.Scheme == "" {
 			s.Port = "8080"
+		}
+		if s.TLS == "manual" || s.TLS == "self_signed" || s.TLS == "email" {
+			s.Extra = rapid.IntRange(0, 2).Draw(t, lb+"extra") == 0
+		}
+		if s.Host != "" && rapid.IntRange(0, 5).Draw(t, lb+"path") == 0 {
+			s.Path = rapid.SampledFrom([]string{"/app", "/a/b"}).Draw(t, lb+"pathv")
 		}
 		e := model(s)
 		key := strings.ToLower(s.Host) + ":" + e.port
